@@ -5,7 +5,7 @@
 //!   inventory <file.rs>..  print the syn inventory of bindings files as JSON
 #![allow(clippy::all, dead_code, unused_imports)]
 
-#[path = "../../../../repo/bindgen-tests/tests/parse_callbacks/mod.rs"]
+#[path = "/repo/bindgen-tests/tests/parse_callbacks/mod.rs"]
 mod parse_callbacks;
 
 mod fmtdrive;
